@@ -55,6 +55,12 @@ func c19Image() []byte {
 
 var c19Signed []byte
 
+// c19LargeImage is larger than io.Copy's 32 KiB chunk, so that streaming it takes
+// several positional reads (state kept between reads shows only here).
+func c19LargeImage() []byte {
+	return pegen.Build(pegen.Layout{PE32Plus: true, Lfanew: 0x80, Secs: []pegen.Sec{{RawSize: 8}, {RawSize: 13}}, Trailing: 70001, Big: true})
+}
+
 func c19Subjects() []c19Subject {
 	if c19Signed == nil {
 		p, err := authenticode.Parse(bytes.NewReader(c19Image()))
@@ -178,6 +184,13 @@ func c19Subjects() []c19Subject {
 			}
 			return p
 		}, func(o any) string { return authenticode.VerifDump(o.(*authenticode.PECOFFBinary)) }, imgOps[:4]},
+		{"large unsigned image (110 KB)", func() any {
+			p, err := authenticode.Parse(bytes.NewReader(c19LargeImage()))
+			if err != nil {
+				panic(err)
+			}
+			return p
+		}, func(o any) string { return authenticode.VerifDump(o.(*authenticode.PECOFFBinary)) }, imgOps[:3]},
 		{"signature database", func() any {
 			db, err := signature.ReadSignatureDatabase(bytes.NewReader(dbBytes))
 			if err != nil {
@@ -665,11 +678,9 @@ func c19RacePass(c *hx.Ctx) {
 		sort.Strings(frames[:0])
 		fn := "?"
 		for _, f := range frames {
-			if i := strings.Index(f, "go-uefi/"); i >= 0 {
-				fn = f[i+len("go-uefi/"):]
-				if j := strings.Index(fn, "("); j > 0 {
-					fn = fn[:j]
-				}
+			// frame lines look like "github.com/foxboron/go-uefi/authenticode.(*multi).ReadAt()"
+			if i := strings.Index(f, "go-uefi/"); i >= 0 && !strings.Contains(f, ".go:") {
+				fn = strings.TrimSuffix(strings.TrimSpace(f[i+len("go-uefi/"):]), "()")
 				break
 			}
 		}
